@@ -50,7 +50,9 @@ def run(shard, rec):
     deals = []
     shim = ns.shim
 
-    def split(field, s, tt, mm):
+    def split(field, s, *a_, **k_):
+        tt = k_['t'] if 't' in k_ else a_[0]
+        mm = k_['m'] if 'm' in k_ else a_[1 if 't' not in k_ else 0]
         try:
             rt = sim.CUR.get()
             pid, thr = rt.pid, rt.threshold
@@ -59,7 +61,7 @@ def run(shard, rec):
         fr = sys._getframe(1)
         caller = fr.f_code.co_qualname
         n0 = len(shim.log)
-        r = orig_split(field, s, tt, mm)
+        r = orig_split(field, s, *a_, **k_)
         draws = [d for d in shim.log[n0:] if d[0] == pid]
         deals.append({'pid': pid, 'caller': caller, 'field': field, 't': tt, 'm': mm, 'thr': thr, 'secrets': list(s), 'shares': r, 'draws': draws})
         return r
@@ -82,7 +84,7 @@ def run(shard, rec):
         return program
 
     for pi in range(shard['programs']):
-        kind = ('int', 'ext', 'fxp', 'int', 'ext2')[pi % 5]
+        kind = ('int', 'ext', 'fxp', 'int', 'ext2', 'switch')[pi % 6]
         sseed = rng.randrange(1 << 30)
         policy = rng.choice(sim.POLICIES)
         case = [shard['name'], pi, kind, sseed]
@@ -96,13 +98,17 @@ def run(shard, rec):
         elif kind == 'fxp':
             spec = fxprogs.gen(rng, m, l=16, f=8, ops=fxprogs.CHEAP, n_steps=(3, 6), features=False)
             program = fxprogs.build(spec)
+        elif kind == 'switch':
+            # threshold changed at run time through the public setter between two phases (effective without PRSS): dealings must follow the current threshold
+            spec = {'values': [rng.randint(1, 9) for _ in range(4)]}
+            program = progs.threshold_switch_program(tuple(spec['values']))[0]
         elif kind == 'ext':
             spec = {'order': 2 ** 8}
             program = micro_ext({'order': 2 ** 8})
         else:
             spec = {'order': 3 ** 4}
             program = micro_ext({'order': 3 ** 4})
-        w = sim.World(m, t, no_prss, seed=sseed, policy=policy).run(program)
+        w = sim.World(m, t, no_prss, seed=sseed, policy=policy, history='auto', on_observed=lambda: (deals.clear(), shim.log.clear())).run(program)
         rec.count('programs_run')
         wit = {'kind': kind, 'spec': spec, 'policy': policy, 'sched_seed': sseed}
         if w.ok_results() is None:
@@ -113,7 +119,9 @@ def run(shard, rec):
         for (i, j) in w.conns:
             for lab, pl in w.frames(i, j)[0]:
                 payloads_to[(i, j)].append(pl)
+        t_cfg = t
         for d in deals:
+            t = d['thr'] if d['thr'] is not None else t_cfg      # the threshold in force when the dealing was made (it can be changed at run time)
             field = d['field']
             fid = (int(field.characteristic), int(field.ext_deg), str(field.modulus))
             if fid not in refF:
@@ -158,9 +166,10 @@ def run(shard, rec):
                     rec.violation(f'{what}: coefficients of polynomial {h} are not the {t} values drawn for it', dict(feats, mechanism='coefficients-not-fresh-draws'), wit, case=case)
                 polys.append(tuple(F.to_int(c) for c in (coeffs[1:t + 1] + [F.zero()] * t)[:t]))
                 key = (q,)
-                topn[key] += 1
-                if F.is_zero((coeffs + [F.zero()] * (t + 1))[t]):
-                    topzero[key] += 1
+                if t >= 1:
+                    topn[key] += 1
+                    if F.is_zero((coeffs + [F.zero()] * (t + 1))[t]):
+                        topzero[key] += 1
                 if F.d > 1:
                     for c in coeffs[1:t + 1]:
                         subfield_n[q] += 1
@@ -172,13 +181,14 @@ def run(shard, rec):
                 if len(set(polys)) < len(polys):
                     rec.violation(f'{what}: two secrets of one batch were dealt with the same random coefficients', dict(feats, mechanism='coefficients-reused-in-batch'), wit, case=case)
             # no party is sent the dealt secret itself (large fields only: chance 1/q otherwise)
-            if q > 2 ** 20:
+            if q > 2 ** 20 and t >= 1:
                 for h in range(n):
                     sec = d['secrets'][h]
                     sv = ref.elt(F, sec if isinstance(sec, field) else field(sec))
                     for j in range(m):
                         if j != d['pid'] and ref.elt(F, field(d['shares'][j][h])) == sv:
                             rec.violation(f'{what}: the share sent to party {j} for secret {h} equals the secret itself', dict(feats, mechanism='secret-in-clear'), wit, case=case)
+        t = t_cfg
         rec.case(case, nontrivial=t >= 1, sample={'config': shard['name'], 'kind': kind, 'dealings': len(deals), 'callers': sorted({d['caller'] for d in deals})} if pi < 3 else None)
         for d in deals:
             rec.seen('dealing_callers', d['caller'])
